@@ -113,6 +113,16 @@ pub fn rich_docs() -> Vec<ADoc> {
             e("a", vec![], vec![e("a", vec![at("x", "1")], vec![])]),
         ],
     )));
+    // D8 comments and PIs on both sides of a DOCTYPE: sibling / following / preceding axes at the top
+    // level must pass over the document type declaration
+    let mut d = doc(el("r", vec![], vec![e("c", vec![], vec![]), com("in"), e("c", vec![at("x", "1")], vec![])]));
+    d.pre.push(com("pre"));
+    d.pre.push(pi("pp", None));
+    d.doctype = Some(ADoctype { name: "r".into(), public: None, system: None, decls: vec![], subset: false });
+    d.mid.push(com("mid"));
+    d.mid.push(pi("pm", Some("d")));
+    d.post.push(com("post"));
+    v.push(d);
     v
 }
 
@@ -219,6 +229,7 @@ pub fn contexts() -> Vec<Vec<Step>> {
         vec![dslash(), step(Axis::Child, NodeTest::Text)],
         vec![dslash(), step(Axis::Child, NodeTest::Comment)],
         vec![dslash(), step(Axis::Child, NodeTest::PI(None))],
+        vec![step(Axis::Child, NodeTest::Node)],
         vec![],
     ]
 }
